@@ -33,6 +33,7 @@ func (c12) Gen(r *rand.Rand, tier string, run int) *core.Case {
 	}
 	c.Params["objects"] = 2 + r.IntN(2)
 	c.Params["focus"] = r.IntN(3)
+	c.Params["unset_level"] = r.IntN(2)
 	// sub-batches: a hostile client that keeps draining its connection, one
 	// that stops reading, and one that mostly mutates valid traffic
 	switch k := r.IntN(10); {
@@ -264,9 +265,13 @@ func c12frames(st *c12state, cat string, r *rand.Rand) [][]byte {
 		return out
 	case "generic":
 		s, o := target()
-		act := pick32(2, 5, 6, 7, 8, 80, 81, 82, 83, 84, 85)
+		act := pick32(2, 5, 6, 7, 8, 80, 81, 82, 83, 84, 85, 5, 5, 6)
 		var p []byte
-		switch r.IntN(4) {
+		k := r.IntN(6)
+		if act == 5 || act == 6 {
+			k = 2 + r.IntN(4)
+		}
+		switch k {
 		case 0:
 			p = garbage()
 		case 1:
@@ -276,9 +281,53 @@ func c12frames(st *c12state, cat string, r *rand.Rand) [][]byte {
 			b.ValStr("level")
 			b.ValI32(int32(r.IntN(100)) - 50)
 			p = b.Bytes()
-		default:
+		case 3:
 			var b ref.Buf
 			b.U32(o)
+			p = b.Bytes()
+		default:
+			// well-formed arguments of the generic action, with names and
+			// ids that exist, that do not, and of the wrong kind
+			var b ref.Buf
+			name := func() {
+				switch r.IntN(6) {
+				case 0:
+					b.ValStr("level")
+				case 1:
+					b.ValU32(PropLvl)
+				case 2:
+					b.ValStr("nope")
+				case 3:
+					b.ValU32(pick32(0, SigTick, ActEcho, 12345))
+				case 4:
+					b.ValI32(int32(PropLvl))
+				default:
+					b.ValBool(true)
+				}
+			}
+			switch act {
+			case 5: // property(name)
+				name()
+			case 6: // setProperty(name, value)
+				name()
+				switch r.IntN(3) {
+				case 0:
+					b.ValI32(int32(r.IntN(100)) - 50)
+				case 1:
+					b.ValStr("x")
+				default:
+					b.ValU32(7)
+				}
+			case 8: // registerEventWithSignature(object, action, handler, signature)
+				b.U32(o)
+				b.U32(pick32(SigTick, SigTock, PropLvl, 9999))
+				b.U64(uint64(r.IntN(4)))
+				b.Str([]string{"(i)", "i", "", "(s)"}[r.IntN(4)])
+			case 81, 85: // enableStats / enableTrace
+				b.U8(uint8(r.IntN(2)))
+			case 2: // metaObject(object)
+				b.U32(pick32(o, 0, 1, 0xffffffff))
+			}
 			p = b.Bytes()
 		}
 		return [][]byte{ref.NewFrame(uint8(pick32(ref.Call, ref.Post)), s, o, act, id(), p).Encode()}
